@@ -380,6 +380,12 @@ func (c *Check) Validate() error {
 					found = true
 				}
 			}
+			if !found && engineOnlyAssertion(m.expectID) {
+				// decided by the engine's static-memory write monitor, which has no
+				// native counterpart: the replay only has to run
+				c.Validated++
+				continue
+			}
 			if !found && nr.Outcome != "panic" && nr.Outcome != "hang" && nr.Outcome != "crash" {
 				c.mismatch(i, fmt.Sprintf("assertion %s fails in the engine but holds natively (outcome %s, failures %v)", m.expectID, nr.Outcome, nr.Failures))
 				continue
@@ -586,4 +592,15 @@ func (c *Check) ExploreNeed(job *interp.Job, covers ...string) interp.Stats {
 		}
 	}
 	return st
+}
+
+// engineOnlyAssertion: assertions whose verdict comes from the engine's
+// static-memory write monitor (natively LibStaticWrites() is always 0).
+func engineOnlyAssertion(id string) bool {
+	for _, s := range []string{"static-state-unchanged", "writes-shared-memory", "no-static-write"} {
+		if strings.Contains(id, s) {
+			return true
+		}
+	}
+	return false
 }
